@@ -27,6 +27,10 @@ def main():
   r = sh('git -C /repo worktree add -q --detach %s HEAD' % wt)
   try:
     r = sh('git -C %s apply %s' % (wt, os.path.join(d, 'patch.diff')))
+    if r.returncode != 0:
+      # the patch was written against an earlier HEAD (before the add-only hook commit): merge it
+      r = sh('git -C %s apply --3way %s' % (wt, os.path.join(d, 'patch.diff')))
+      out['applied_3way'] = True
     out['applies'] = r.returncode == 0
     if not out['applies']:
       out['apply_error'] = r.stdout[-500:]
